@@ -494,6 +494,65 @@ fn minimise(sc: &Scenario, prop: &str, rule: &str, first: RunReport) -> (Scenari
     );
     shrink_list(&mut best, &mut best_rep, &mut budget, &|s| s.net.clock_jumps.len(), &|s, a, b| { s.net.clock_jumps.drain(a..b); }, &mut try_candidate);
 
+    shrink_list(&mut best, &mut best_rep, &mut budget, &|s| s.net.breaks.len(), &|s, a, b| { s.net.breaks.drain(a..b); }, &mut try_candidate);
+    // World-specific scripts.
+    match best.world.as_str() {
+        "puppet" => {
+            // Shortest prefix of the step policy that still shows the violation.
+            let steps = |s: &Scenario| s.script.get("steps").and_then(|x| x.as_u64()).unwrap_or(0);
+            let (mut lo, mut hi) = (1u64, steps(&best));
+            while lo < hi && budget > 0 {
+                let mid = (lo + hi) / 2;
+                let mut cand = best.clone();
+                cand.script["steps"] = serde_json::json!(mid);
+                if try_candidate(cand, &mut best, &mut best_rep, &mut budget) {
+                    hi = mid;
+                } else {
+                    lo = mid + 1;
+                }
+            }
+            for knob in ["p_duplicate", "p_stale", "p_payload", "p_sync_probe", "p_equivocate", "p_unsafe", "p_timeout_episode", "p_invalid"] {
+                let mut cand = best.clone();
+                if cand.script.get(knob).and_then(|x| x.as_f64()).unwrap_or(0.0) > 0.0 {
+                    cand.script[knob] = serde_json::json!(0.0);
+                    try_candidate(cand, &mut best, &mut best_rep, &mut budget);
+                }
+            }
+        }
+        "rsender" => {
+            shrink_list(
+                &mut best,
+                &mut best_rep,
+                &mut budget,
+                &|s| s.script.get("ops").and_then(|x| x.as_array()).map_or(0, |a| a.len()),
+                &|s, a, b| {
+                    if let Some(arr) = s.script.get_mut("ops").and_then(|x| x.as_array_mut()) {
+                        arr.drain(a..b);
+                    }
+                },
+                &mut try_candidate,
+            );
+        }
+        "store" => {
+            let nclients = best.script.get("clients").and_then(|x| x.as_array()).map_or(0, |a| a.len());
+            for c in (0..nclients).rev() {
+                shrink_list(
+                    &mut best,
+                    &mut best_rep,
+                    &mut budget,
+                    &|s| s.script["clients"].get(c).and_then(|x| x.as_array()).map_or(0, |a| a.len()),
+                    &|s, a, b| {
+                        if let Some(arr) = s.script["clients"].get_mut(c).and_then(|x| x.as_array_mut()) {
+                            arr.drain(a..b);
+                        }
+                    },
+                    &mut try_candidate,
+                );
+            }
+        }
+        _ => {}
+    }
+
     // Scalar simplifications.
     let mut cand = best.clone();
     cand.net.short_write_prob = 0.0;
@@ -575,4 +634,48 @@ pub fn survey(spec: &PropSpec, batch_seed: u64, runs: usize, thorough: bool, thr
     println!("  faults: {:?}", faults);
     println!("  probes: {:?}", probes);
     0
+}
+
+/// Determinism proof: `n` scenarios of a property's generator, each executed twice (on different
+/// OS threads, interleaved with other runs); the event-log hashes must be identical.
+pub fn determinism(spec: &PropSpec, batch_seed: u64, n: usize, threads: usize) -> i32 {
+    let next = AtomicUsize::new(0);
+    let (tx, rx) = mpsc::channel::<(u64, u64, u64)>();
+    let t0 = Instant::now();
+    let mut bad = 0;
+    let mut total = 0;
+    std::thread::scope(|s| {
+        for _ in 0..threads {
+            let tx = tx.clone();
+            let next = &next;
+            s.spawn(move || loop {
+                let k = next.fetch_add(1, Ordering::SeqCst);
+                if k >= n {
+                    break;
+                }
+                let sseed = scenario_seed(batch_seed, spec.id, k as u64);
+                let sc = match spec.enumerated.and_then(|(_, case)| case(k)) {
+                    Some(sc) => sc,
+                    None => (spec.gen)(sseed, false),
+                };
+                let a = crate::runner::run_scenario(&sc).log_hash;
+                let b = crate::runner::run_scenario(&sc).log_hash;
+                let _ = tx.send((sseed, a, b));
+            });
+        }
+        drop(tx);
+        for (seed, a, b) in rx {
+            total += 1;
+            if a != b {
+                bad += 1;
+                println!("DIVERGED property={} scenario_seed={} {} vs {}", spec.id, seed, a, b);
+            }
+        }
+    });
+    println!("determinism {} scenarios={} diverged={} threads={} wall={:.1}s", spec.id, total, bad, threads, t0.elapsed().as_secs_f64());
+    if bad > 0 {
+        2
+    } else {
+        0
+    }
 }
